@@ -83,10 +83,14 @@ class DLLSpec(Spec):
         return [[], [0], [0, 1, 2]]
 
     def decoy(self):
-        l = DoublyLinkedList([self.payload(None), self.payload(None)])
+        l = DoublyLinkedList([Opaque(), Opaque()] if self.mode == "node" else [self.payload(None), self.payload(None)])
         return l, lambda x: (canon(x), len(x), [id(d) for d in x])
 
     def payload(self, st):
+        if self.mode == "node":
+            # the payload is a node of ANOTHER list (an index of handles into it): it is data here, nothing else
+            self._other_next += 1
+            return self._other_nodes[self._other_next % len(self._other_nodes)]
         if self.mode == "distinct":
             return Opaque()
         if self.mode == "equal":
@@ -95,6 +99,10 @@ class DLLSpec(Spec):
 
     def build(self, init):
         st = None
+        if self.mode == "node":
+            self._other = DoublyLinkedList([Opaque() for _ in range(4)])
+            self._other_nodes = list(self._other.iter_nodes())
+            self._other_next = -1
         data = [self.payload(st) for _ in init]
         l = DoublyLinkedList(data) if init else DoublyLinkedList()
         model = list(l.iter_nodes())
@@ -275,6 +283,12 @@ class DLLSpec(Spec):
 
     def check(self, l, model):
         walk_check(l, model)
+        if self.mode == "node":
+            try:
+                walk_check(self._other, self._other_nodes)
+            except Mismatch as m:
+                raise Mismatch("payload-disturbed", "the payloads are nodes of another list; that list is no longer intact: "
+                               "%s: %s" % (m.kind, m.detail))
 
     def key(self, l, model):
         # the whole object graph (every attribute of the list and of its nodes), node and payload
@@ -323,7 +337,7 @@ def run(report, tier):
     report.rule("one evaluation = one mutator applied in one reachable list state, followed by a full forward/"
                 "backward link walk + len + iteration against the reference list of node identities; "
                 "non-trivial = distinct reachable (length, size-field) state in which the op menu was fully applied")
-    for mode in ("distinct", "equal", "poison"):
+    for mode in ("distinct", "equal", "poison", "node"):
         explore(DLLSpec(mode, maxsize), report, max_depth=None)
     recursion_probe(report)
     report.assume("payload renaming is a symmetry of DoublyLinkedList (payloads are opaque), so states are merged by shape")
